@@ -23,6 +23,12 @@
      the op names one of the model's 4 object slots; a file that passes the dimension check has ndim >= 1 (fitsio.h:193
      throws otherwise = phase PDim) and naxes[] has ndim entries; a fit that passes fit.h:26-67 has ndim >= 1 and as many
      knot vectors as orders; the byte count of a key string is a function of the key (kl).
+   remove_key (round 3): ORemoveKey is one of the operations; every theorem above quantifies over histories that contain it (hit and
+     miss, any position, any number of stored keys) and over every fault oracle, which includes the allocation remove_key makes.
+     C20_failed_op covers it in full (a failed remove_key leaves the object IDENTICAL).  The theorems are about the tree with
+     proposed fix C20_10 (remove_key obtains the replacement key table before it releases anything); without it the property is
+     violated: C20_refuted_remove_key_alloc_fault.  C20_remove_key_all_faults_clean / C20_remove_key_failure_unchanged: the same
+     history with the fix, every fault position.
    Still NOT proved: C20_failed_op for write_key's own allocation failure in the `same object` form (the invariant, safety
    and leak-freedom of that path ARE covered by C20_invariant: write_key_ok handles all four fault positions). *)
 From Coq Require Import List Arith Bool.
@@ -93,6 +99,25 @@ Theorem C20_refuted_aux_value_size : errs (wm (run_world cfg_orig no_fault h_rea
 Proof. exact refuted_aux_value_size. Qed.
 Theorem C20_refuted_reading_ctor_leaks : lost (wm (run_world cfg_orig no_fault h_newread)) <> [].
 Proof. exact refuted_reading_ctor_leaks. Qed.
+
+(* remove_key without C20_10 (every other fix present): the re-allocation of the key table fails after the entry and the old table
+   were released — the call fails, the object keeps the address of the released table with naux already decremented (neither
+   unchanged nor empty), three blocks (the surviving entry) stay allocated with no pointer to them left, and the destructor walks
+   released memory; without a fault, and with the fault in the parking array, the same history is clean *)
+Theorem C20_refuted_remove_key_alloc_fault :
+  (exists o, get_obj (run_world cfg_no_rmkey (fault_at 10) h_rmkey_pre) 0 = Some o /\ get o FAux = Dangling /\ naux o = 1
+             /\ length (hp (wm (run_world cfg_no_rmkey (fault_at 10) h_rmkey_pre))) = 3)
+  /\ snd (run cfg_no_rmkey (fault_at 10) world0 h_rmkey_pre) = [Ok; Ok; Ok; Failed RAlloc]
+  /\ crashed (run_world cfg_no_rmkey (fault_at 10) (h_rmkey_pre ++ [ODestroy 0])) = true
+  /\ clean cfg_no_rmkey no_fault h_rmkey = true /\ clean cfg_no_rmkey (fault_at 9) h_rmkey = true.
+Proof. exact refuted_remove_key_alloc_fault. Qed.
+(* with C20_10: every single allocation-failure position of a history with hits at the first / last / only position and a miss *)
+Theorem C20_remove_key_all_faults_clean : forallb (fun k => clean cfg_fixed (fault_at k) h_rmkey) (seq 0 24) = true.
+Proof. exact fixed_clean_all_faults_h_rmkey. Qed.
+Theorem C20_remove_key_failure_unchanged :
+  snd (run cfg_fixed (fault_at 9) world0 h_rmkey_pre) = [Ok; Ok; Ok; Failed RAlloc]
+  /\ get_obj (run_world cfg_fixed (fault_at 9) h_rmkey_pre) 0 = get_obj (run_world cfg_fixed no_fault [ONew 0; OWriteKey 0 false key2; OWriteKey 0 false key3]) 0.
+Proof. exact fixed_remove_key_alloc_fault_unchanged. Qed.
 
 (* the same histories with the fixes: not crashed, no allocator error, nothing lost, trace balanced, all objects gone *)
 Theorem C20_fixed_examples :
@@ -176,6 +201,30 @@ Example C20_safe_nonvacuous :
             /\ safe cfg_fixed o None (OConvolve 1 1 3) = true /\ ndim o = 2.
 Proof. eexists. vm_compute. repeat split. Qed.
 
+(* the invariant on a history with key removals: a table read from a file (two keys) receives a third key, the MIDDLE one is
+   removed, a miss, the first one is removed, the table is moved, the last key is removed (the table then holds a 0-byte key
+   array), a key is written again; with and without a fault in a remove_key call (allocation 24 is the second removal's) *)
+Example C20_remove_key_nonvacuous :
+  Forall (wf_op kl5) h_example_rk
+  /\ Inv kl5 (run_world cfg_fixed no_fault h_example_rk) /\ Inv kl5 (run_world cfg_fixed (fault_at 24) h_example_rk)
+  /\ snd (run cfg_fixed no_fault world0 h_example_rk) = [Ok; Ok; Ok; Ok; Ok; Ok; Ok; Ok; Ok]
+  /\ snd (run cfg_fixed (fault_at 24) world0 h_example_rk) = [Ok; Ok; Ok; Ok; Ok; Failed RAlloc; Ok; Ok; Ok]
+  /\ (exists o, get_obj (run_world cfg_fixed no_fault h_example_rk) 1 = Some o /\ ndim o = 2 /\ naux o = 1 /\ map akey (auxs o) = [2])
+  /\ (exists o, get_obj (run_world cfg_fixed (fault_at 24) h_example_rk) 1 = Some o /\ naux o = 2 /\ map akey (auxs o) = [1; 2])
+  /\ (exists o, get_obj (run_world cfg_fixed no_fault (firstn 8 h_example_rk)) 1 = Some o /\ naux o = 0 /\ exists id, get o FAux = Owned id 0).
+Proof.
+  split; [exact h_example_rk_wf|]. split; [apply invariant_reachable; exact h_example_rk_wf|].
+  split; [apply invariant_reachable; exact h_example_rk_wf|].
+  split; [vm_compute; reflexivity|]. split; [vm_compute; reflexivity|].
+  split; [eexists; vm_compute; repeat split|]. split; [eexists; vm_compute; repeat split|].
+  eexists; vm_compute; repeat split. eexists; reflexivity.
+Qed.
+Example C20_failed_remove_key_nonvacuous :
+  exists w', step cfg_fixed (fault_at 24) (run_world cfg_fixed (fault_at 24) (firstn 5 h_example_rk)) (ORemoveKey 0 1) = (w', Failed RAlloc)
+             /\ not_write_key (ORemoveKey 0 1) = true
+             /\ get_obj w' 0 = get_obj (run_world cfg_fixed (fault_at 24) (firstn 5 h_example_rk)) 0.
+Proof. eexists. vm_compute. repeat split. Qed.
+
 (* hypotheses of C20_failed_op are satisfiable on a non-trivial state: a truncated read into a live empty object fails *)
 Example C20_failed_op_nonvacuous :
   exists w', step cfg_fixed no_fault (run_world cfg_fixed no_fault [ONew 0]) (ORead 0 fileT) = (w', Failed RInput)
@@ -204,6 +253,9 @@ Print Assumptions C20_refuted_convolve_invalid.
 Print Assumptions C20_refuted_move_assign_source.
 Print Assumptions C20_refuted_aux_value_size.
 Print Assumptions C20_refuted_reading_ctor_leaks.
+Print Assumptions C20_refuted_remove_key_alloc_fault.
+Print Assumptions C20_remove_key_all_faults_clean.
+Print Assumptions C20_remove_key_failure_unchanged.
 Print Assumptions C20_fixed_examples.
 Print Assumptions C20_invariant.
 Print Assumptions C20_step_preserves.
